@@ -173,12 +173,22 @@ func c14graphs(r *rand.Rand, yieldEvery int64) []*c14graph {
 		gs = append(gs, cg)
 	}
 	// random grammars
-	for i := 0; i < 4; i++ {
+	for i := 0; i < 6; i++ {
 		var g *gram.Grammar
-		if i%2 == 0 {
+		switch i % 3 {
+		case 0:
 			g = gram.MutualLR(r)
-		} else {
+		case 1:
 			g = gram.Random(r, gram.GenOpts{Stratified: true})
+		default:
+			// token-level grammars over the typed terminals (integer, float, bool, nil, char, duration, word, regexp),
+			// trimmed in every mode: every terminal and trimming wrapper of the library is a closure shared by all goroutines
+			g = gram.TypedGrammar(r, false, true)
+		}
+		if i%3 != 2 {
+			// SuppressError around half of the references and an eighth of the other sub-expressions: one more wrapper
+			// value that all goroutines run at once
+			g.SuppressSome(r.Intn)
 		}
 		nt := r.Intn(len(g.NTs))
 		ins := c14vetted(r, g, nt, 8)
